@@ -311,6 +311,7 @@ func (r *vpRunner) block(d time.Duration) bool {
 	// asset is bound to (evaluated every block for every asset of every AVS, dom_votingpower_binding.go)
 	r.reportBinding(bind)
 	// ---------------- monitors: the property's formula on the real state
+	var evaluated []string // AVSs whose formula is evaluated at an epoch end of this block
 	opAssets := map[string][]vpAssetState{}
 	for _, o := range ops {
 		opAssets[o.Op] = o.Assets
@@ -344,6 +345,7 @@ func (r *vpRunner) block(d time.Duration) bool {
 				r.afterFail++
 			}
 			env.Eval("C05.formula")
+			evaluated = append(evaluated, in.Avs)
 			sum := new(big.Int)
 			for k, v := range after.Entries {
 				kf := strings.SplitN(k, "/", 2)
@@ -428,6 +430,9 @@ func (r *vpRunner) block(d time.Duration) bool {
 			}
 		}
 	}
+	// ---------------- the same records through the readers, whatever the OptedInfo (jailed / not) says
+	// (dom_votingpower_readers.go): op vp.read + monitors C05.reader / C05.reader-sum
+	r.readers(ins, after, evaluated)
 	return true
 }
 
@@ -534,6 +539,7 @@ func domVotingPower(env *Env) error {
 	vpScenarioEmptyAssetList(env)
 	vpScenarioFailingAVS(env)  // dom_votingpower_multi.go
 	vpScenarioSlashedSelf(env) // dom_votingpower_multi.go
+	vpScenarioJailed(env)      // dom_votingpower_readers.go
 	for k := 0; k < env.Int("gwtokens", 2); k++ {
 		vpScenarioGatewayToken(env, k) // dom_votingpower_regtoken.go
 	}
@@ -592,7 +598,14 @@ func domVotingPower(env *Env) error {
 		}
 		var delegs []deleg
 		nb := 8 + rng.Intn(maxBlocks)
+		// jail / unjail of opted-in operators while epochs end (own stream: dom_votingpower_readers.go);
+		// two histories of three have such events, about one block in four
+		jr := NewRNG(seed*31 + 17)
+		jailing := jr.Chance(2, 3)
 		for b := 0; b < nb; b++ {
+			if jailing && b > 1 && jr.Chance(1, 4) {
+				r.randomJail(jr, cfg.NOperators, extras)
+			}
 			for k := rng.Intn(4); k > 0; k-- {
 				switch rng.Pick(3, 4, 2, 2, 3, 3, 3, 1) {
 				case 0: // price change through the oracle keeper
